@@ -480,7 +480,9 @@ func (fs *fileStore) flush(out *os.File, fields core.Fields, filter goexpr.Expr,
 			}
 		}()
 
-		_, err = fs.iterate(fields, ms, !shouldSort, !disallowRaw, write)
+		// raw pass-through is only usable when not sorting, since a sorted flush
+		// has to re-encode every row (doWrite ignores raw data when sorting)
+		_, err = fs.iterate(fields, ms, !shouldSort, !disallowRaw && !shouldSort, write)
 		return
 	}
 
